@@ -38,6 +38,8 @@ type BatchSpec struct {
 	Style     int          `json:"style"`
 	Out       string       `json:"out"`
 	Arrivals  int          `json:"arrivals"`
+	BigName   string       `json:"big_name"` // script (subtest name) that builds a big tree, "" if none
+	BigToken  string       `json:"big_token"`
 }
 
 type ScriptResult struct {
@@ -55,15 +57,17 @@ type BatchResult struct {
 	Scripts            []ScriptResult `json:"scripts"`
 	Escapes            []string       `json:"panic_escapes"`
 	RendezvousComplete int            `json:"rendezvous_complete"`
+	OverlapEnds        int            `json:"ends_overlapping_a_removal"`
 }
 
 // Collector gathers what the scripts of one batch report.
 type Collector struct {
-	Spec     BatchSpec
-	byName   map[string]*ScriptSpec
-	mu       sync.Mutex
-	res      map[string]*ScriptResult
-	complete int32
+	Spec        BatchSpec
+	byName      map[string]*ScriptSpec
+	mu          sync.Mutex
+	res         map[string]*ScriptResult
+	complete    int32
+	overlapEnds int32
 }
 
 // Load reads a batch description.
@@ -184,6 +188,26 @@ func (c *Collector) Params() testscript.Params {
 					atomic.StoreInt32(complete, 1)
 				}
 			},
+			"endgate": func(ts *testscript.TestScript, neg bool, args []string) {
+				// Orchestrates the end of the batch: every script but the big-tree one ends only once the big
+				// script's work directory is being removed (removeAll first makes its directories 0777), so that
+				// the last script finishes while an earlier-finished one is still cleaning up.
+				if !c.Spec.Parallel || c.Spec.Retention != "" || c.Spec.BigName == "" || ts.Name() == c.Spec.BigName {
+					return
+				}
+				probe := filepath.Join(filepath.Dir(ts.Getenv("WORK")), "script-"+c.Spec.BigName, "sub-"+c.Spec.BigToken, "big-"+c.Spec.BigToken, "d000")
+				deadline := time.Now().Add(3 * time.Second)
+				for time.Now().Before(deadline) {
+					st, err := os.Stat(probe)
+					if err != nil || st.Mode().Perm() == 0o777 {
+						if err == nil {
+							atomic.AddInt32(&c.overlapEnds, 1)
+						}
+						return
+					}
+					time.Sleep(200 * time.Microsecond)
+				}
+			},
 			"checkown": func(ts *testscript.TestScript, neg bool, args []string) {
 				name := ts.Name()
 				sp := c.byName[name]
@@ -253,6 +277,7 @@ func (c *Collector) Write(escapes []string) error {
 	c.mu.Unlock()
 	out.Escapes = escapes
 	out.RendezvousComplete = int(atomic.LoadInt32(&c.complete))
+	out.OverlapEnds = int(atomic.LoadInt32(&c.overlapEnds))
 	jb, _ := json.Marshal(&out)
 	return os.WriteFile(c.Spec.Out, jb, 0o666)
 }
